@@ -152,7 +152,8 @@ def run_kani_unit(unit, prop, repo, work, seed, tier):
     except (LookupError, RuntimeError, OSError) as e:
         res["undecided"].append(str(e))
         return res
-    hs = [h for h in k.get("harness", []) if prop in h["props"] and (tier == "thorough" or h.get("tier", "quick") == "quick")]
+    # tier "escalate": only the harnesses reserved for the thorough tier (run on top of a quick run when a carrier clause failed)
+    hs = [h for h in k.get("harness", []) if prop in h["props"] and ((tier == "escalate" and h.get("tier", "quick") == "thorough") or tier == "thorough" or (tier != "escalate" and h.get("tier", "quick") == "quick"))]
     if not hs:
         return res
     cmd = ["cargo", "kani", "-p", k["package"]]
